@@ -257,6 +257,20 @@ def explore(run, tier):
                 for other in ({}, {'DE2': '5' * 16}, {'DE2': '5' * 16, 'DE127': 'tail'}):
                     m = {'MTI': '1240', **other, f'DE{b}': blank}
                     cases.append(mk('pkg', codec, (b + ci) % 2, m, dict(m)))
+    # DENSE bitmaps: a caller's configuration that defines every element 2..128 (two-character fixed text; a date-time
+    # element WITHOUT a format of its own every tenth) and messages in which whole bitmap bytes are full — all 127 elements,
+    # each single byte of eight, the first byte (bit 1 + elements 2..8)
+    dense = {str(b): ({'field_name': f'e{b}', 'field_type': 'FIXED', 'field_length': 6, 'field_python_type': 'datetime'}
+                      if b % 10 == 0 else {'field_name': f'e{b}', 'field_type': 'FIXED', 'field_length': 2})
+             for b in range(2, 129)}
+    import datetime as _dt
+    def dense_val(b):
+        return _dt.datetime(2012 + b % 50, 1 + b % 12, 1 + b % 28) if b % 10 == 0 else f'{b % 100:02d}'
+    groups = [list(range(2, 129)), list(range(2, 9))] + [list(range(8 * k + 1, 8 * k + 9)) for k in range(1, 16)]
+    for gi, g in enumerate(groups):
+        for ci, codec in enumerate(codecs3):
+            m = {'MTI': '1240', **{f'DE{b}': dense_val(b) for b in g}}
+            cases.append(mk(dense, codec, (gi + ci) % 2, m, dict(m)))
     # the merchant-name processor on different elements, with the packaged pattern / none / an empty one / a caller's own
     pat = pkg['43']['field_processor_config']
     for bit in (43, 61, 104):
